@@ -710,7 +710,9 @@ namespace fixedmath
     //else check lo for underflow and shift left with d
     else if( ulo < (1<<16) )
       {
-      int lshbits{ std::max(cxx20::countl_zero( uhi ) - 30,0) >> 1 };
+      //scaled uhi has to stay below 2^31 ( lshbits <= clz - 33 ), sum of squares of scaled values must fit in 64 bits
+      int const clz{ cxx20::countl_zero( uhi ) };
+      int lshbits{ std::min( std::max(clz - 30,0) >> 1, clz - 33 ) };
       uhi <<= lshbits;
       ulo <<= lshbits;
       return as_fixed( sqrt( as_fixed( (uhi*uhi+ulo*ulo)>>prec_) ).v  >> lshbits);
